@@ -214,10 +214,11 @@ UserSections(auto, dir, cmd, cli, V) ==
       s3 == ParseFiles(s2, FilesNamed(dir, cmd), V)
   IN AddLines(s3, cli)
 
-\* ConfigLinesAddedTwice: skoolkit adds the -c Config/... lines to its set of sections before it reads the extra files, and
-\* then adds all -c lines, those included, at the end: the [Config] section ends up with these lines twice (same dictionary)
-UserSectionsTwice(auto, dir, cmd, cli, V) ==
-  LET cfg == AddLines(ParseFiles(<<>>, auto, V), SelectSeq(cli, IsConfigSpec))
+\* ConfigLinesAddedTwice: skoolkit starts from the built-in [Config] section (D), adds the -c Config/... lines to its set
+\* of sections before it reads the extra files, and then adds all -c lines, those included, at the end: its [Config] section
+\* has the built-in lines (unless a ref file has a plain [Config]) and the -c lines twice.  Same dictionary as documented.
+UserSectionsTwice(D, auto, dir, cmd, cli, V) ==
+  LET cfg == AddLines(ParseFiles(SelectSeq(D, LAMBDA x : x.name = CONFIG), auto, V), SelectSeq(cli, IsConfigSpec))
       s3 == ParseFiles(ParseFiles(cfg, FilesNamed(dir, RefFileNames(cfg)), V), FilesNamed(dir, cmd), V)
   IN AddLines(s3, cli)
 
